@@ -4,6 +4,7 @@
 import GraphiqModel.Proofs.Convert
 import GraphiqModel.Proofs.StateToGraph
 import GraphiqModel.Proofs.StateToGraphRoundTrip
+import GraphiqModel.Proofs.StateToGraphTotal
 import GraphiqModel.Proofs.GraphStateGroup
 namespace Graphiq.C08
 open Graphiq Graphiq.PRow Graphiq.Tab Graphiq.STab
@@ -82,6 +83,55 @@ theorem state_to_graph_input_is_state (inv : Nat → Adj → Option Adj) (t : ST
   · cases h
   · next g hg => exact (afterLC_of_spec t hreal g (S2G.graphFinderWith_spec inv _ g hg)).good
 
+/-! ### completeness: the modelled `state_to_graph` returns on every stabilizer state -/
+
+/-- **a stabilizer state, as a tableau**: `n` generators that are real (no i-phase), commute pairwise (`Good`) and are linearly
+    independent over GF(2) as rows `[x | z]` (`S2G.Indep`: a GF(2) combination of the rows vanishes only with all coefficients 0).
+    (`−I` is then not in the group: `no_minus_one_of_indep`.) -/
+def IsStabilizerState (t : STab) : Prop := t.Good ∧ S2G.Indep (S2G.XZ.ofSTab t)
+
+/-- **`state_to_graph` is complete** (every n ≥ 1, every stabilizer state; repaired code, /repo 86ab4f1 (D40) and 8a43724 (D49)):
+    the modelled `state_to_graph` RETURNS a graph and a gate list — none of the assertions of `_graph_finder` ("Stabilizer generators
+    are not independent", "Final Z matrix is not a graph", "Unexpected X matrix"), none of the three closing assertions of
+    `canonical_form` inside `_phase_correction`, and no singular-matrix error fires.
+    Proof: `row_reduction` keeps independence and commutation and leaves the X part in echelon form; the repaired `_position_finder`
+    returns exactly the non-pivot columns; after the Hadamards on them the X part has trivial kernel (rank argument
+    `hadamard_rows_independent`), so the inverse exists and passes the re-check; `final_z = z.T @ x_inv` is symmetric because the rows
+    commute (`X Zᵀ = Z Xᵀ`); after the `P_dag` gates the X part of the canonical form is the identity, so `_phase_correction` inverts
+    the identity.
+    Stated for every inverse computation `inv` that returns a left inverse on every matrix with trivial kernel (`S2G.InvOK`); the exact
+    GF(2) elimination `gf2InvF` of the executable model is one (`state_to_graph_exact_complete`).  What is NOT proved: that the
+    floating-point `np.round(np.linalg.det(x) * np.linalg.inv(x)) % 2` of the Python is such an `inv` (it is, as long as the float
+    determinant/adjugate entries round to the exact integers) — that step is compared per input by the harness. -/
+theorem state_to_graph_complete (inv : Nat → Adj → Option Adj) (t : STab) (hn : 0 < t.n) (hinv : S2G.InvOK inv t.n)
+    (hstate : IsStabilizerState t) : ∃ adj gates, S2G.stateToGraphWith inv t = .ok (adj, gates) :=
+  stateToGraphWith_complete inv t hn hinv hstate.1 hstate.2
+
+/-- the instance for the executable model (exact GF(2) elimination), which is the one compared with the Python on every input -/
+theorem state_to_graph_exact_complete (t : STab) (hn : 0 < t.n) (hstate : IsStabilizerState t) :
+    ∃ adj gates, S2G.stateToGraph t = .ok (adj, gates) :=
+  stateToGraph_complete t hn hstate.1 hstate.2
+
+/-- **`state_to_graph` is totally correct on the model** (completeness + soundness, every n ≥ 1): every stabilizer state is converted to
+    a simple graph and a list of in-range gates that map the state exactly — signs included — onto that graph's state -/
+theorem state_to_graph_correct (t : STab) (hn : 0 < t.n) (hstate : IsStabilizerState t) :
+    ∃ adj gates, S2G.stateToGraph t = .ok (adj, gates) ∧
+      ((t.runCircuit gates).n = t.n ∧ ∀ p, (t.runCircuit gates).Spn p ↔ (graphSTab t.n adj.f).Spn p) ∧
+      gates.all (Gate.inBounds t.n) = true ∧
+      (∀ i j, i < t.n → j < t.n → adj.f i j = adj.f j i) ∧ (∀ i, i < t.n → adj.f i i = false) := by
+  obtain ⟨adj, gates, h⟩ := state_to_graph_exact_complete t hn hstate
+  exact ⟨adj, gates, h, state_to_graph_sound S2G.gf2InvF t hstate.1.real adj gates h⟩
+
+/-- `state_to_graph_exact_complete` with the hypothesis spelled out in primitive terms (no auxiliary definitions): the rows carry no
+    i-phase, their symplectic products vanish pairwise, and a GF(2) combination of the rows `[x | z]` vanishes only trivially -/
+theorem state_to_graph_complete_real_commuting_independent (t : STab) (hn : 0 < t.n)
+    (hreal : ∀ i, i < t.n → (t.row i).ip = false)
+    (hcomm : ∀ i k, i < t.n → k < t.n → PRow.sp t.n (t.row i) (t.row k) = false)
+    (hind : ∀ c : Nat → Bool, (∀ j, j < t.n → parityTo t.n (fun i => c i && (t.row i).x j) = false ∧
+      parityTo t.n (fun i => c i && (t.row i).z j) = false) → ∀ i, i < t.n → c i = false) :
+    ∃ adj gates, S2G.stateToGraph t = .ok (adj, gates) :=
+  state_to_graph_exact_complete t hn ⟨⟨hreal, hcomm⟩, hind⟩
+
 /-- non-vacuity: the Bell state `⟨XX, −ZZ⟩` is converted (one Hadamard, one sign-fixing `Z`) to the graph `0 – 1` -/
 def bellMinus : STab :=
   { n := 2, row := fun i => if i = 0 then ⟨fun j => decide (j < 2), fun _ => false, false, false⟩
@@ -95,6 +145,44 @@ example : (match S2G.stateToGraph bellMinus with
 /-- the one-qubit `|0⟩ = ⟨+Z⟩` (rejected before the repair of D40) converts to the one-vertex graph with the single gate `H 0` -/
 example : (match S2G.stateToGraph (STab.zero 1) with
     | .ok (adj, gates) => adj.bits == "0" && gates == [Gate.H 0]
+    | .error _ => false) = true := by decide +kernel
+
+/-- non-vacuity of `state_to_graph_complete`: the one-qubit `|0⟩ = ⟨+Z⟩` is a stabilizer state in the sense of the hypothesis -/
+example : 0 < (STab.zero 1).n ∧ IsStabilizerState (STab.zero 1) := by
+  refine ⟨by decide, S2G.good_of_check _ (by decide), ?_⟩
+  intro c hc i hi
+  have h0 := (hc 0 (by decide)).2
+  have hi0 : i = 0 := by have : i < 1 := hi; omega
+  subst hi0
+  simpa [S2G.XZ.ofSTab, STab.zero, PRow.Zq, parityTo] using h0
+
+/-- `|0⟩ ⊗ Bell` with negative signs: `⟨−Z₀, −X₁X₂, −Z₁Z₂⟩` (qubit 0 has no X component: the D40 shape) -/
+def ketBellNeg : STab :=
+  { n := 3, row := fun i =>
+      if i = 0 then ⟨fun _ => false, fun j => decide (j = 0), true, false⟩
+      else if i = 1 then ⟨fun j => decide (j = 1 ∨ j = 2), fun _ => false, true, false⟩
+      else ⟨fun _ => false, fun j => decide (j = 1 ∨ j = 2), true, false⟩ }
+
+/-- non-vacuity of `state_to_graph_complete` / `state_to_graph_correct`: `|0⟩ ⊗ Bell` with negative signs meets the hypotheses -/
+example : 0 < ketBellNeg.n ∧ IsStabilizerState ketBellNeg := by
+  refine ⟨by decide, S2G.good_of_check _ (by decide), ?_⟩
+  intro c hc
+  have h0 := (hc 0 (by decide)).2
+  have h1 := (hc 1 (by decide)).1
+  have h2 := (hc 1 (by decide)).2
+  simp [S2G.XZ.ofSTab, ketBellNeg, parityTo] at h0 h1 h2
+  intro i hi
+  have : i < 3 := hi
+  have h : i = 0 ∨ i = 1 ∨ i = 2 := by omega
+  rcases h with rfl | rfl | rfl
+  · exact h0
+  · exact h1
+  · exact h2
+set_option maxRecDepth 100000 in
+/-- … and the model converts it to the graph with the single edge `1 – 2` (vertex 0 isolated), gates `H 0, H 2`, then the sign-fixing
+    gates `Z 0, Z 1, Z 2` — the same answer as the Python -/
+example : (match S2G.stateToGraph ketBellNeg with
+    | .ok (adj, gates) => adj.bits == "000001010" && gates == [Gate.H 0, Gate.H 2, Gate.Z 0, Gate.Z 1, Gate.Z 2]
     | .error _ => false) = true := by decide +kernel
 
 /-! ### graph states: the round trip, the tableau is a state, both constructions give the same state -/
@@ -152,11 +240,11 @@ example : (∀ i j, i < 3 → j < 3 → tri i j = tri j i) ∧ (∀ i, i < 3 →
      have h2 : j = 0 ∨ j = 1 ∨ j = 2 := by omega
      rcases h1 with rfl | rfl | rfl <;> rcases h2 with rfl | rfl | rfl <;> decide)
 
-/- Not theorems of this development (kept visible): (1) `state_to_graph` succeeds on every stabilizer state — false on the current
-   code (known finding D40: the Hadamard-position heuristic `_position_finder` fails, e.g. on the one-qubit |0⟩, refuted above;
-   known finding D49: the float determinant is truncated); (2) the density-matrix side (negativity-based edge detection) —
-   compared numerically per input; (3) that the Python's float `det·inv % 2` equals the exact GF(2) inverse — not needed for
-   soundness (`state_to_graph_sound` quantifies over every candidate inverse), compared per input by the harness. -/
+/- Not theorems of this development (kept visible): (1) the density-matrix side (negativity-based edge detection) — compared
+   numerically per input; (2) that the Python's float `np.round(det · inv) % 2` equals the exact GF(2) inverse — not needed for soundness
+   (`state_to_graph_sound` quantifies over every candidate inverse); completeness (`state_to_graph_complete`) is proved for every
+   inverse computation that is correct on matrices with trivial kernel, and the float one is compared with the exact one per input by
+   the harness (D49 was such a disagreement).  Completeness itself was false before the repairs 86ab4f1 (D40) and 8a43724 (D49). -/
 
 /-! ### Non-vacuity: the triangle graph through both constructions -/
 example : (List.range 3).all (fun i => (List.range 3).all fun j =>
